@@ -65,13 +65,13 @@ func c09Alphabet() []mwOp {
 		{K: "use", Use: []string{"A"}},
 		{K: "use", Use: []string{"B", "C"}},
 		{K: "handle", P: "/x", Ms: []string{"GET"}, Route: []string{"M1", "M2"}},
-		{K: "handle", P: "/x", Ms: []string{"POST"}, Route: []string{"M3"}},
+		{K: "handle", P: "/x", Ms: []string{"POST"}, Route: []string{"M1", "M2", "M3"}},
 		{K: "handle", Via: "P1", P: "/y", Ms: []string{"GET"}, Route: []string{"M1"}},
 		{K: "handle", Via: "P2", P: "/z", Ms: []string{"POST"}},
 		{K: "handle", Via: "R", P: "", Ms: []string{"GET"}, Route: []string{"M1"}},
 		{K: "handle", Via: "R", P: "", Ms: []string{"POST"}},
 		{K: "handle", P: "/x/{id}"},
-		{K: "handle", Via: "P1", P: "/y", Ms: []string{"POST", "PUT"}, Route: []string{"M2"}},
+		{K: "handle", Via: "P1", P: "/y", Ms: []string{"POST", "PUT"}, Route: []string{"M1", "M2", "M3"}},
 		{K: "remove", P: "/x"},
 		{K: "remove", P: "/x", Ms: []string{"GET"}},
 		{K: "remove", Via: "R", P: ""},
@@ -195,8 +195,11 @@ func (m *onion) apply(o mwOp, dry bool) bool {
 }
 
 type c09Sys struct {
-	r   *Router
-	log *hv.Log
+	// master is the caller's own middleware list M1,M2,M3: registrations pass prefixes of it (master[:k]...),
+	// the way an application slices one list. mux must not write into it.
+	master []types.Middleware[*hv.H]
+	r      *Router
+	log    *hv.Log
 	p1  *mux.Prefix[*hv.H]
 	p2  *mux.Prefix[*hv.H]
 	res *mux.Resource[*hv.H]
@@ -226,10 +229,21 @@ func spare(log *hv.Log, names []string) []types.Middleware[*hv.H] {
 func newC09Sys(cfg RouterCfg) *c09Sys {
 	s := &c09Sys{log: &hv.Log{ByH: map[*hv.H]hv.FactoryCall{}}}
 	s.r = NewRouter(cfg)
+	s.master = mws(s.log, []string{"M1", "M2", "M3"})
 	s.p1 = s.r.Prefix("/p", spare(s.log, []string{"D"})...)
 	s.p2 = s.p1.Prefix("/q", spare(s.log, []string{"E", "F"})...)
 	s.res = s.p1.Resource("/r/{id}", spare(s.log, []string{"G"})...)
 	return s
+}
+
+// route returns the caller's slice for a registration: a prefix of the master list.
+func (s *c09Sys) route(names []string) []types.Middleware[*hv.H] {
+	for i, n := range names {
+		if n != fmt.Sprintf("M%d", i+1) {
+			panic("harness: route middleware lists must be prefixes of M1,M2,M3")
+		}
+	}
+	return s.master[:len(names)]
 }
 
 func (s *c09Sys) apply(o mwOp) (any, bool) {
@@ -241,13 +255,13 @@ func (s *c09Sys) apply(o mwOp) (any, bool) {
 		case "handle":
 			switch o.Via {
 			case "":
-				s.r.Handle(o.P, h, spare(s.log, o.Route), o.Ms...)
+				s.r.Handle(o.P, h, s.route(o.Route), o.Ms...)
 			case "P1":
-				s.p1.Handle(o.P, h, spare(s.log, o.Route), o.Ms...)
+				s.p1.Handle(o.P, h, s.route(o.Route), o.Ms...)
 			case "P2":
-				s.p2.Handle(o.P, h, spare(s.log, o.Route), o.Ms...)
+				s.p2.Handle(o.P, h, s.route(o.Route), o.Ms...)
 			case "R":
-				s.res.Handle(h, spare(s.log, o.Route), o.Ms...)
+				s.res.Handle(h, s.route(o.Route), o.Ms...)
 			}
 		case "remove":
 			switch o.Via {
@@ -549,6 +563,29 @@ func (s *gsys) apply(o mwOp) (any, bool) {
 	})
 }
 
+// expectedCalls is the number of factory invocations op must cause: one per middleware per wrapped handler.
+// A router without trace has 3 handlers of its own (404, OPTIONS *, the '*' 405) plus 4 per GET route.
+func (s *gsys) expectedCalls(o mwOp) int {
+	handlers := func(n string) int { return 3 + 4*len(s.rts[n]) }
+	switch o.K {
+	case "guse":
+		n := 1 // the group's not-found handler
+		for r := range s.live {
+			n += handlers(r)
+		}
+		return n * len(o.Use)
+	case "gnew":
+		return 3 * len(s.muse)
+	case "gadd":
+		return 3*len(o.Use) + 3*len(s.muse)
+	case "ruse":
+		return handlers(o.Name) * len(o.Use)
+	case "rhandle":
+		return 4 * (len(o.Route) + len(s.ruse[o.Name]))
+	}
+	return 0
+}
+
 func (s *gsys) modelString() string {
 	var b strings.Builder
 	b.WriteString("guse=" + strings.Join(s.muse, ","))
@@ -620,11 +657,16 @@ func c09GroupExpand(in explore.ExpandIn, cfg c09Cfg) (any, error) {
 		full := append(append([]mwOp{}, hist...), op)
 		s, _ := buildGroup(cfg.Router, hist)
 		c := explore.Child{Op: k}
+		wantCalls, calls0 := s.expectedCalls(op), len(s.log.Calls)
 		if v, bad := s.apply(op); bad {
 			c.Viols = append(c.Viols, explore.Violation{Property: "C09", Clause: "C09.no-panic", Class: "group-op-panic", History: mwStrings(full), Observed: fmt.Sprintf("%s panicked: %v", op, v), Expected: "no panic"})
 			c.Key, c.NoExpand = "panic:"+explore.Key(s.g), true
 			kids = append(kids, c)
 			continue
+		}
+		if got := len(s.log.Calls) - calls0; got != wantCalls {
+			c.Viols = append(c.Viols, explore.Violation{Property: "C09", Clause: "C09.factory-once", Class: "group-factory-count", Config: "group " + cfg.Router.String(), History: mwStrings(full), Probe: op.String(),
+				Observed: fmt.Sprintf("%d factory invocations", got), Expected: fmt.Sprintf("%d (one per middleware per wrapped handler)", wantCalls)})
 		}
 		outc := map[string]struct{}{}
 		s.check(cfg.Router, full, &c, outc)
